@@ -19,12 +19,30 @@ import (
 type c07Cell struct {
 	Frame m.Bytes
 	Valid bool // the body is a valid packet of the kind the (PT, FMT) row registers
+	// After: the frame is not the first of its datagram - "typed": an (empty) receiver report
+	// comes first, "raw": a frame without a table row does. Dispatch is per frame: what came
+	// before must not matter.
+	After string `json:",omitempty"`
+}
+
+var c07Before = map[string][]byte{
+	"typed": {0x80, 201, 0, 1, 0, 0, 0, 9},
+	"raw":   {0x85, 208, 0, 1, 1, 2, 3, 4},
 }
 
 var subC07Dispatch = harness.NewSub("c07-dispatch-table", func(c c07Cell, d harness.Dialect) error {
 	pt, count := c.Frame[1], c.Frame[0]&0x1f
 	want := m.Dispatch(pt, count, m.Strict)
-	ps, err := decodeDatagram(c.Frame)
+	ps, err := decodeDatagram(append(append([]byte(nil), c07Before[c.After]...), c.Frame...))
+	if c.After != "" && err == nil {
+		if len(ps) < 1 || (c.After == "typed") != (typeName(ps[0]) == "*rtcp.ReceiverReport") || (c.After == "raw") != (typeName(ps[0]) == "*rtcp.RawPacket") {
+			return fmt.Errorf("PT %d FMT %d after a %s frame: the first packet came back as %s", pt, count, c.After, typeName(ps[0]))
+		}
+		if raw, ok := ps[0].(*rtcp.RawPacket); ok && !bytes.Equal([]byte(*raw), c07Before["raw"]) {
+			return fmt.Errorf("PT %d FMT %d after a raw frame: the first RawPacket holds %s, not its own frame", pt, count, hexs(*raw))
+		}
+		ps = ps[1:]
+	}
 	if d.Has("sli-pt-205") && pt == 206 && count == 2 {
 		// listed: the 206/2 row dispatches to a decoder that only accepts 205/2
 		if err == nil {
@@ -205,6 +223,12 @@ func TestC07(t *testing.T) {
 				c := c07Cell{Frame: c07ValidFrame(seed, pt, count), Valid: true}
 				subC07Dispatch.Check(t, c)
 				nCells++
+				if j == 0 {
+					for _, after := range []string{"typed", "raw"} {
+						subC07Dispatch.Check(t, c07Cell{Frame: c.Frame, Valid: true, After: after})
+						nCells++
+					}
+				}
 				if j == 0 && cell%7 == 0 {
 					harness.Sample(subC07Dispatch.Name, harness.HashBytes(c.Frame), c)
 				}
@@ -212,6 +236,12 @@ func TestC07(t *testing.T) {
 			c := c07Cell{Frame: c07RandomFrame(seed+32, pt, count)}
 			subC07Dispatch.Check(t, c)
 			nCells++
+			if j == 0 {
+				for _, after := range []string{"typed", "raw"} {
+					subC07Dispatch.Check(t, c07Cell{Frame: c.Frame, After: after})
+					nCells++
+				}
+			}
 		}
 		harness.Class("cell-kind:"+string(k), 1)
 		// the largest frame the header can describe (length field 65535 = 262144 octets), for
